@@ -270,7 +270,9 @@ class Ref:
             del self.live_arrays[live:]
             self.frames.pop()
         # checked builds: leaving a preemptive defeat function into unavoidable defeat is an error
-        if (self.in_try and not self.forced and not self.unchecked and decl.body.preemptive
+        pre = getattr(self.env, '_ref_preemptive', None)
+        is_pre = pre.get((decl.name, tuple(decl.param_types)), False) if pre is not None else decl.body.preemptive
+        if (self.in_try and not self.forced and not self.unchecked and is_pre
                 and decl.name.flavor.name == 'DEFEAT'):
             if self.choose():
                 self.fault('nonlocal_preempt')
@@ -662,12 +664,34 @@ class Ref:
             raise Abort('unsupported', 'builtin ' + name)
 
 
+def contains_preempt(node):
+    """syntactic: does the block contain a preempt block anywhere (reachable or not)?  Computed on
+    the PARSED tree, independently of the compiler's own `preemptive` bookkeeping."""
+    n = cname(node)
+    if n == 'PreemptBlock':
+        return True
+    if n == 'CodeBlock':
+        return any(contains_preempt(s) for s in node.stmts)
+    if n == 'IfBlock':
+        return contains_preempt(node.body) or contains_preempt(node.else_block)
+    if n == 'LoopBlock':
+        return contains_preempt(node.body) or contains_preempt(node.cont)
+    if n == 'TryBlock':
+        return contains_preempt(node.body) or contains_preempt(node.handler.body)
+    return False
+
+
 def front_end(src, opts=None):
     from hidc.lexer import SourceCode
     from hidc.parser import parse
     from hidc.ast import Environment
     env = Environment.empty(**(opts or {}))
-    prog = parse(SourceCode.from_string(src)).evaluate(env)
+    parsed = parse(SourceCode.from_string(src))
+    pre = {}
+    for fd in parsed.func_decls:
+        pre[(fd.name, tuple(fd.param_types))] = contains_preempt(fd.body)
+    prog = parsed.evaluate(env)
+    env.__dict__['_ref_preemptive'] = pre
     return prog, env
 
 
